@@ -736,6 +736,7 @@ func (rn *runner) runPolicy(idx int, c c14case) {
 
 func main() {
 	args := sim.ParseArgs()
+	sim.BaseEnv() // also silences the engine's logger (VERIF_LOG=1 keeps it)
 	v := sim.NewVerdict("C14", args.Seed, args.Tier, args.Batch, args.Out)
 	v.Rule = "case = 1-3 generated filters/endpoints (host with 1-4 dots, {param} names incl. - _ ., literal segments with regex metacharacters, trailing /*, host.*, '*', method lists incl. empty and HEAD/OPTIONS/PATCH) loaded into the real engine matcher + 10-18 requests derived from each pattern (exact, parameter values with dots/metacharacters, segments under a wildcard, trailing slash, host-only, near misses) x 7 methods; a request is non-trivial iff the ENGINE selected a flow/endpoint for it (only then the oracle has something to demand); distinct by <mode, host dots, #params, wildcard kind, host-param, odd param name, metachar literal, method list empty?, request derivation>"
 	v.Assumptions = []string{
@@ -774,7 +775,7 @@ func main() {
 		os.Exit(v.Write())
 	}
 
-	total := args.Pick(2400, 60000) // even case index = flows mode, odd = policy mode
+	total := args.Pick(2400, 100000) // even case index = flows mode, odd = policy mode
 	lo, hi := args.Share(total)
 	for i := lo; i < hi; i++ {
 		r := args.CaseRand(i)
